@@ -6,6 +6,7 @@ Model: coq/theories/Graph/Queries.v (agree_l); ground truth: coq/theories/Graph/
 boolean transitive closure - independent of the depth-first searches of the model)."""
 import itertools
 import signal
+import sys
 
 from common import c_Z, c_bool, c_list, c_nat, c_opt
 
@@ -234,12 +235,15 @@ def random_graph(r):
     return par, kind
 
 
-def default_queries(par, r):
-    """node lists for node_depth: all nodes, reversed, the sinks, a random sample, a repeat"""
+def default_queries(par, r, lean=False):
+    """node lists for node_depth: all nodes, reversed, the sinks, a random sample, a repeat
+    (lean: only all nodes and a random sample - used for the big exhaustive groups)"""
     n = len(par)
     if n == 0:
         return [[]]
     allv = list(range(n))
+    if lean:
+        return [allv, r.sample(allv, r.randrange(1, n + 1))]
     has_child = {p for ps in par for p in ps}
     sinks = [v for v in allv if v not in has_child]
     qs = [allv, allv[::-1]]
@@ -292,7 +296,7 @@ def evaluate(ctx, group, items):
             ctx.disagree(group, case, what)
         cases.append(case_coq(par, o))
         meta.append((case, o))
-    res = ctx.coq_cases(group, REQ, FN, cases, K, case_ty='dg * obs')
+    res = ctx.coq_cases(group, REQ, FN, cases, K, shard=600, case_ty='dg * obs')
     for (case, o), flags in zip(meta, res):
         par = case['par']
         ctx.count(group, key=repr(par), nontrivial=(len(par) >= 2 and any(par)), **facts(par, o))
@@ -309,7 +313,8 @@ def evaluate(ctx, group, items):
 def run(ctx):
     ctx.rule = ('digraphs given as ordered parent lists per listed node (self-loops, cycles, disconnected, empty); '
                 'exhaustive: every digraph on <= 3 nodes with every order of every parent list (quick), plus every '
-                'digraph on 4 nodes and every DAG on 5 nodes with ascending parent lists (thorough); random: '
+                'digraph on 4 nodes and every DAG on 5 nodes with ascending parent lists and a sample of 8000 four-node digraphs '
+                'with shuffled parent lists (thorough); random: '
                 'structured digraphs on 1..12 nodes (DAGs of several densities, DAG + back edge, self-loops, '
                 'forests, chains, layered, disjoint unions) under random listing order and parent order; every node '
                 'is a query argument; distinct = distinct parent-list structure; non-trivial = >= 2 nodes and >= 1 edge')
@@ -321,6 +326,10 @@ def run(ctx):
         'the watchdog (%d s per graph, SIGALRM) is what observes "never a hang" on the implementation; in the '
         'model termination is a theorem (fuel sufficiency)' % WATCHDOG_S]
     r = ctx.rng
+    # ---- corpus (minimised past failures / hand-picked regression inputs)
+    pending = ctx.__dict__.pop('c12_corpus', [])
+    if pending:
+        evaluate(ctx, 'corpus', pending)
     # ---- exhaustive small scope
     small = []
     for n in range(0, 4):
@@ -330,22 +339,22 @@ def run(ctx):
     for case, o in meta[1:2] + meta[700:701]:
         ctx.sample(case)
     if ctx.tier == 'thorough':
-        items = [(par, default_queries(par, r)) for par in all_digraphs(4)]
+        items = [(par, default_queries(par, r, lean=True)) for par in all_digraphs(4)]
         evaluate(ctx, 'exhaustive4', items)
         ctx.set_exhaustive('exhaustive4', True)
-        # the same graphs with shuffled parent order (the search order of the DFS depends on it)
+        # a sample of the same graphs with shuffled parent order (the search order of the DFS depends on it)
+        pool = [par for par in all_digraphs(4) if any(len(ps) > 1 for ps in par)]
         items = []
-        for par in all_digraphs(4):
-            if any(len(ps) > 1 for ps in par):
-                par = [r.sample(ps, len(ps)) for ps in par]
-                items.append((par, default_queries(par, r)))
+        for par in r.sample(pool, ctx.budget(8000, 8000)):
+            par = [r.sample(ps, len(ps)) for ps in par]
+            items.append((par, default_queries(par, r)))
         evaluate(ctx, 'digraphs4-shuffled', items)
-        items = [(par, default_queries(par, r)) for par in all_dags(5)]
+        items = [(par, default_queries(par, r, lean=True)) for par in all_dags(5)]
         evaluate(ctx, 'dags5', items)
         ctx.set_exhaustive('dags5', True)
     # ---- structured random
     items = []
-    for _ in range(ctx.budget(1500, 12000)):
+    for _ in range(ctx.budget(1500, 6000)):
         par, kind = random_graph(r)
         items.append((par, default_queries(par, r)))
     meta = evaluate(ctx, 'random', items)
@@ -368,4 +377,9 @@ def replay(ctx, payload):
     case = v.get('case') if isinstance(v, dict) else None
     if not case or 'par' not in case:
         return
-    evaluate(ctx, 'replay', [([list(ps) for ps in case['par']], [list(q) for q in case.get('queries', [])])])
+    item = ([list(ps) for ps in case['par']], [list(q) for q in case.get('queries', [])])
+    if payload.get('corpus') and '--replay' not in sys.argv:
+        # corpus files are evaluated together at the start of run() (one coqc instead of one per file)
+        ctx.__dict__.setdefault('c12_corpus', []).append(item)
+        return
+    evaluate(ctx, 'replay', [item])
